@@ -23,9 +23,55 @@ Proof.
   destruct (1 <=? n)%Z; simpl; [auto|discriminate].
 Qed.
 
+(** [1 - r^n = 0] (python: ZeroDivisionError) needs r = 1 or r = -1 *)
+Lemma powerRZ_eq_1 r n : (1 <= n)%Z -> powerRZ r n = 1 -> r = 1 \/ r = -1.
+Proof.
+  intros Hn H. rewrite powerRZ_nat in H by lia.
+  assert (Hk : (1 <= Z.to_nat n)%nat) by lia.
+  assert (Ha : Rabs r ^ Z.to_nat n = 1) by (rewrite RPow_abs, H; apply Rabs_R1).
+  destruct (Req_dec r 0) as [->|Hr0].
+  { rewrite pow_ne_zero in H by lia. lra. }
+  destruct (Req_dec (Rabs r) 1) as [H1|H1].
+  - unfold Rabs in H1. destruct (Rcase_abs r); [right|left]; lra.
+  - exfalso. apply (pow_ne_1 (Rabs r) (Z.to_nat n)); auto. apply Rabs_pos_lt. assumption.
+Qed.
+
 Lemma start_count_c2c_total tau L n r :
-  valid_length L = true -> (1 <=? n)%Z = true -> exists s, start_count_c2c tau L n r = Some s.
-Proof. intros Hv Hn. unfold start_count_c2c. rewrite Hv, Hn. simpl. eexists. reflexivity. Qed.
+  valid_length L = true -> (1 <=? n)%Z = true -> (Rabs (r - 1) <= tau \/ powerRZ r n <> 1) ->
+  exists s, start_count_c2c tau L n r = Some s.
+Proof.
+  intros Hv Hn Hz. unfold start_count_c2c. rewrite Hv, Hn. simpl.
+  unfold Rltb. destruct (Rlt_dec tau (Rabs (r - 1))) as [Hb|Hb]; [|eexists; reflexivity].
+  destruct Hz as [Hz|Hz]; [lra|]. unfold Reqb. destruct (Req_EM_T (1 - powerRZ r n) 0) as [e|ne]; [lra|].
+  simpl. eexists. reflexivity.
+Qed.
+
+(** for positive ratios the closed form never divides by zero *)
+Lemma start_count_c2c_total_pos tau L n r :
+  0 <= tau -> 0 < r -> valid_length L = true -> (1 <=? n)%Z = true -> exists s, start_count_c2c tau L n r = Some s.
+Proof.
+  intros Htau Hr Hv Hn. apply start_count_c2c_total; try assumption. apply Z.leb_le in Hn.
+  destruct (Req_dec r 1) as [->|H1].
+  - left. replace (1 - 1) with 0 by ring. rewrite Rabs_R0. assumption.
+  - right. rewrite powerRZ_nat by lia. apply pow_ne_1; [assumption|assumption|lia].
+Qed.
+
+(** accepted for r => accepted for 1/r *)
+Lemma start_count_c2c_total_inv tau L n r s :
+  r <> 0 -> start_count_c2c tau L n r = Some s -> exists s', start_count_c2c tau L n (/ r) = Some s'.
+Proof.
+  intros Hr Hs. destruct (start_count_c2c_some _ _ _ _ _ Hs) as [Hv Hn].
+  apply start_count_c2c_total; try assumption.
+  destruct (Req_dec (powerRZ (/ r) n) 1) as [H1|H1]; [left|right; assumption].
+  pose proof Hn as Hn'. apply Z.leb_le in Hn'.
+  assert (Hq : / r = r).
+  { destruct (powerRZ_eq_1 _ _ Hn' H1) as [H|H].
+    - assert (r = 1) by (rewrite <- (Rinv_inv r), H; apply Rinv_1). subst r. apply Rinv_1.
+    - assert (r = -1) by (rewrite <- (Rinv_inv r), H; field). subst r. field. }
+  rewrite Hq in *. unfold start_count_c2c in Hs. rewrite Hv, Hn in Hs. simpl in Hs.
+  unfold Rltb in Hs. destruct (Rlt_dec tau (Rabs (r - 1))) as [Hb|Hb]; [|lra].
+  exfalso. unfold Reqb in Hs. destruct (Req_EM_T (1 - powerRZ r n) 0) as [e|ne]; [discriminate|lra].
+Qed.
 
 Lemma end_start_total_total L s E : valid_length L = true -> end_start_total L s E = Some (s * E).
 Proof. intros Hv. unfold end_start_total. rewrite Hv. reflexivity. Qed.
@@ -45,7 +91,8 @@ Proof.
   intros Hr H Hret. unfold plan_count_c2c in H. inv_guards. simpl in Hret. inversion Hret; subst; clear Hret.
   match goal with Hs : start_count_c2c _ _ _ _ = Some _ |- _ =>
     destruct (start_count_c2c_some _ _ _ _ _ Hs) as [Hv Hn] end.
-  destruct (start_count_c2c_total tau L n (/ r) Hv Hn) as [s' Hs'].
+  match goal with Hs : start_count_c2c _ _ _ _ = Some _ |- _ =>
+    destruct (start_count_c2c_total_inv _ _ _ _ _ Hr Hs) as [s' Hs'] end.
   unfold plan_count_c2c. rewrite Hs'. simpl.
   rewrite total_count_c2c_inv by assumption.
   match goal with Ht : total_count_c2c _ _ _ = Some _ |- _ => rewrite Ht end. simpl.
@@ -63,8 +110,9 @@ Proof.
     destruct (start_count_c2c_some _ _ _ _ _ Hs) as [Hv Hn] end.
   unfold plan_count_total. rewrite c2c_count_total_inv by assumption.
   match goal with Hc : c2c_count_total _ _ _ = Some _ |- _ => rewrite Hc end. simpl.
-  match goal with |- context [start_count_c2c tau L n ?q] =>
-    destruct (start_count_c2c_total tau L n q Hv Hn) as [s' Hs'] end.
+  match goal with Hc : c2c_count_total _ _ _ = Some ?x, Hs : start_count_c2c _ _ _ ?x = Some _ |- _ =>
+    assert (Hx : x <> 0) by (unfold c2c_count_total in Hc; inv_guards; unfold Rpower; apply Rgt_not_eq, exp_pos);
+    destruct (start_count_c2c_total_inv _ _ _ _ _ Hx Hs) as [s' Hs'] end.
   rewrite Hs'. simpl. rewrite end_start_total_total by assumption. simpl. eexists. split; reflexivity.
 Qed.
 
@@ -97,7 +145,8 @@ Proof.
   match goal with Ht : total_count_c2c _ _ _ = Some _ |- _ =>
     destruct (total_count_c2c_some _ _ _ _ Ht) as [Hv Hn] end.
   unfold plan_end_c2c. rewrite band_ok_count by assumption. rewrite Hcount. simpl.
-  destruct (start_count_c2c_total tau L n (/ r) Hv Hn) as [s' Hs'].
+  assert (Hq : 0 < / r) by (apply Rinv_0_lt_compat; assumption).
+  destruct (start_count_c2c_total_pos tau L n (/ r) Htau Hq Hv Hn) as [s' Hs'].
   rewrite Hs'. simpl. rewrite total_count_c2c_inv by lra.
   match goal with Ht : total_count_c2c _ _ _ = Some _ |- _ => rewrite Ht end. simpl.
   eexists. split; reflexivity.
@@ -154,8 +203,9 @@ Proof.
   match goal with Hs : start_count_c2c _ _ _ _ = Some _ |- _ =>
     destruct (start_count_c2c_some _ _ _ _ _ Hs) as [Hv Hn] end.
   unfold plan_total_c2c. unfold count_total_c2c in *. rewrite x_total_c2c_inv by assumption. rewrite Hcount. simpl.
+  assert (Hq : 0 < / r) by (apply Rinv_0_lt_compat; assumption).
   match goal with |- context [start_count_c2c tau L ?k ?q] =>
-    destruct (start_count_c2c_total tau L k q Hv Hn) as [s' Hs'] end.
+    destruct (start_count_c2c_total_pos tau L k q Htau Hq Hv Hn) as [s' Hs'] end.
   rewrite Hs'. simpl. rewrite end_start_total_total by assumption. simpl. eexists. split; reflexivity.
 Qed.
 
